@@ -243,7 +243,9 @@ impl<'i> SmlParseTlf<'i> for List<'i> {
     }
 
     fn parse_with_tlf(mut input: &'i [u8], tlf: &TypeLengthField) -> ResTy<'i, Self> {
-        let mut v = Vec::with_capacity(tlf.len as usize);
+        // every list entry occupies at least one byte of input, so the declared element
+        // count is only trusted up to the number of bytes that are actually left
+        let mut v = Vec::with_capacity((tlf.len as usize).min(input.len()));
         for _ in 0..tlf.len {
             let (new_input, x) = ListEntry::parse(input)?;
             v.push(x);
